@@ -217,7 +217,7 @@ def generate(rng, tier):
         "A/B/qb.txt": "x",
         "A/bad.yaml": json.dumps(dict({"a": 2}, **({"inner": "B/innerbad.yaml"} if "inner" in feats else {"a": "bad"}))),
         "A/B/innerbad.yaml": "q: missing.txt\n",
-        "dflt.yaml": json.dumps(dict({"a": 3}, **({"l": [5, 6]} if "l" in feats else {}), **({"dl": {"m": [2]}} if "dl" in feats else {}), **({"obj": {"class_path": "dsim.simtypes.Base", "init_args": {"tags": [3]}}} if "obj" in feats else {}))),
+        "dflt.yaml": "" if rng.random() < 0.25 else json.dumps(dict({"a": 3}, **({"l": [5, 6]} if "l" in feats else {}), **({"dl": {"m": [2]}} if "dl" in feats else {}), **({"obj": {"class_path": "dsim.simtypes.Base", "init_args": {"tags": [3]}}} if "obj" in feats else {}))),
     }
     w = {"dirs": ["home", "run", "A/B", "out"], "files": files, "cwd": ".", "env": {}}
     sweep = {"op": rng.randrange(nops), "max_sites": 40 if tier == "quick" else 80, "cb_cls": rng.choice(["ValueError", "TypeError", "RuntimeError", "KeyError", "OSError", "SimAbort"]), "errno": rng.choice(["EACCES", "ENOENT", "EIO", "EMFILE"]), "adversary": rng.choice(["delete", "chmod0", "mkdir", "truncate"])}
